@@ -187,6 +187,14 @@ class Site:
                 return names[:3]
         return None
 
+    def order_preserving_param(self):
+        """name of the order-preservation proof parameter of a map closure, from SingletonMapFuncAlgebra<OP, ..>"""
+        for n in self.api.inputs + [H.parse(a) for p in self.api.preds if p["k"] == "trait" for a in p["args"]]:
+            r = _find_path(n, "SingletonMapFuncAlgebra")
+            if r is not None and r[2] and r[2][0][0] == "path" and not r[2][0][2]:
+                return r[2][0][1]
+        return None
+
     def has_nondet_param(self):
         return any(n[0] == "path" and n[1].endswith("nondet::NonDet") for n in self.api.inputs)
 
@@ -238,6 +246,7 @@ def sites(crate, solver):
 
 ELEMENTWISE = {"Map", "Filter", "FilterMap", "Inspect", "FlatMap", "FlatMapStreamBlocking", "PartitionSide", "PartitionShared", "Tee", "BeginAtomic", "EndAtomic",
                "DeferTick", "Batch", "YieldConcat", "CrossSingleton", "AntiJoin", "Difference", "ResolveFuturesOrdered", "Unique", "AssertIsConsistent"}
+VALUE_TRANSFORM = {"Map", "FilterMap", "Filter", "FlatMap", "FlatMapStreamBlocking"}
 ORDER_SENSITIVE = {"Enumerate", "Scan", "ScanAsyncBlocking"}
 AGGREGATIONS = {"Fold", "Reduce", "FoldKeyed", "ReduceKeyed", "ReduceKeyedWatermark"}
 UNORDERED_OUT = {"ResolveFutures", "ResolveFuturesBlocking"}
@@ -353,6 +362,19 @@ def check_site(site):
         if v in ELEMENTWISE and v not in ("Batch", "YieldConcat") and out is not None and s.kind == out.kind and s.promises() is not None and out.promises() is not None:
             if not (out.in_tick and not s.in_tick) and not out.promises() <= s.promises():
                 bad("bound-created", "extra promises %s" % sorted(out.promises() - s.promises()))
+        # value-transforming nodes on collections whose value may still change: an arbitrary function does not preserve monotonicity, and a
+        # predicate over a changing value can retract a key
+        if v in VALUE_TRANSFORM and out is not None and s.kind == out.kind and s.kind in ("singleton", "optional", "keyed_singleton") \
+                and s.promises() is not None and out.promises() is not None and not (out.in_tick and not s.in_tick):
+            immutable = bool(s.promises() & {"immutable", "value_immutable"})
+            op = site.order_preserving_param()
+            preserving = op is not None and gname(b.get(op)) == "Proved"
+            if not immutable and not preserving:
+                extra = out.promises() & {"monotone", "values_monotone"}
+                if extra:
+                    bad("bound-created", "an arbitrary function of a changing value is promised %s" % sorted(extra))
+                if v in ("Filter", "FilterMap") and "keys_grow" in out.promises():
+                    bad("bound-created", "a predicate over a changing value can drop a key, yet the output promises keys_grow")
     return n, out_v
 
 
